@@ -15,7 +15,9 @@ _REGISTRY = {
     'C10': ('vt.checks.e2e_checks', 'C10'),
     'C11': ('vt.checks.e2e_checks', 'C11'),
     'C12': ('vt.checks.unit_checks', 'C12'),
+    'C13': ('vt.checks.unit_checks', 'C13'),
     'C14': ('vt.checks.unit_checks', 'C14'),
+    'C15': ('vt.checks.unit_checks', 'C15'),
     'C16': ('vt.checks.unit_checks', 'C16'),
     'C17': ('vt.checks.unit_checks', 'C17'),
     'C18': ('vt.checks.e2e_checks', 'C18'),
